@@ -200,6 +200,11 @@ def replay_file(path, scratch=None):
         scratch = core.Scratch(1)
     try:
         tree = scratch.trees[0]
+        if doc["trace"].get("static"):
+            # C20's static clause: compare the working tree's own table file with a fresh generation again
+            import check_tablecache
+            info, sv = check_tablecache.static_clause(scratch)
+            return sv is not None, {"status": "violation" if sv else "ok", "violations": [sv] if sv else [], "static": info}
         if doc["trace"].get("cross_hashseed"):
             digs = {}
             for hs in doc["trace"]["cross_hashseed"]:
